@@ -161,6 +161,19 @@ theorem nttTransform_spec (hI : InvOK inv inv0) (hroot : RootOK root) :
       cases hz''
       simp
 
+/-- the model NTT over a field is defined on every length `2^L`, `L ≤ 31`, for which the table has an invertible root -/
+theorem nttTransform_definedAt (hroot : RootOK root) (L : Nat) (hL : L ≤ 31) (ω ωi : K)
+    (hr : root (2^L) = some ω) (hi : inv ω = some ωi) (hinv : ωi * ω = 1) :
+    DefinedAt (nttTransform (ringOps K inv inv0) root) (2^L) := by
+  have hω : 0 < L → ω^(2^(L-1)) = -1 := hw_of_rootOK root hroot L ω hr
+  constructor
+  · intro xs hx
+    obtain ⟨y, hy, hys, _⟩ := ntt_eq_dft_model inv inv0 root L hL ω hr hω xs.toArray (by simpa using hx)
+    exact ⟨y.toList, by simp [nttTransform, hy], by simpa using hys⟩
+  · intro xs hx
+    obtain ⟨y, hy, hys, _⟩ := intt_eq_dft_model inv inv0 root L hL ω ωi hr hi hinv hω xs.toArray (by simpa using hx)
+    exact ⟨y.toList, by simp [nttTransform, hy], by simpa using hys⟩
+
 end Generic
 
 /-! ### the base field: `ZMod P`, the translated table `PRIMITIVE_ROOTS` -/
